@@ -10,11 +10,42 @@ TECHNIQUE = 'MIR ordering / single-site / operand-flow rules + interval evaluati
 SR = 'backend::resources::SelfReferentialResourceStorage::<T>'
 
 
+def value_constructors(F, R, rule='B.C17.map'):
+    """'Equals the mapping of the modulator's current value': the mapping a parameter is linked with is the mapping that was
+    written - `Value::from_modulator(id, mapping)` stores `mapping` as it is, and the arithmetic helpers of a mapping
+    (`add_output` .. `neg_output`, behind `value + x`, `-value` ..) apply the operation to each bound in place: the new
+    lower bound comes from the old lower bound, the new upper bound from the old upper bound, input range and easing
+    untouched."""
+    from ..paths import explore
+    b = F.body('value::Value::<T>::from_modulator')
+    if R.check(b is not None, rule, 'anchor:from_modulator', 'Value::from_modulator not found'):
+        rets = [str(p.ret) for p in explore(b) if p.end == 'return']
+        R.check(rets == ['value::Value::FromModulator(std::convert::Into::into(id), mapping)'], rule, 'from_modulator',
+                'Value::from_modulator builds %s, not FromModulator { id: id.into(), mapping }' % [r[:120] for r in rets], detail={'returns': rets[:1]})
+    n = 0
+    for op, tr in (('add', 'Add'), ('sub', 'Sub'), ('mul', 'Mul'), ('div', 'Div'), ('rem', 'Rem'), ('neg', 'Neg')):
+        b = F.body('value::Mapping::<T>::%s_output' % op)
+        if not R.check(b is not None, rule, 'anchor:%s_output' % op, 'Mapping::%s_output not found' % op):
+            continue
+        n += 1
+        rets = [str(p.ret) for p in explore(b) if p.end == 'return']
+        rhs = '' if op == 'neg' else ', rhs'
+        want = 'value::Mapping::Mapping(self.input_range, tuple(std::ops::%s::%s(self.output_range.0%s), std::ops::%s::%s(self.output_range.1%s)), self.easing)' % (tr, op, rhs, tr, op, rhs)
+        R.check(rets == [want], rule, '%s_output' % op, 'Mapping::%s_output builds %s: not the operation applied to each bound in place' % (op, [r[:160] for r in rets]),
+                detail={'returns': rets[:1]}, nontrivial=False)
+    R.floor(rule + '.ops', n, 6)
+
+
 def run(ctx, R, tier):
     F = ctx.facts('default')
     c05.order(F, R)
     once(F, R)
     mapping(F, R)
+    value_constructors(F, R)
+    from .c02 import setters
+    setters(F, R, rule='B.C17.setter', fn_filter=lambda q: q.startswith('modulator::'), floor=5)
+    from .c06 import config_verbatim
+    config_verbatim(F, R, rule='B.C17.config', fn_filter=lambda q: q.startswith('modulator::'), floor=3)
     hold(F, R)
     hold_parameter(F, R)
     lfo(F, R)
